@@ -180,6 +180,9 @@ def _run_task(args):
     ctx = Ctx(prop.PID, known)
     ctx.part = part.name
     t0 = time.time()
+    if os.environ.get("VERIF_FAULT_TIMEOUT"):
+        import faulthandler
+        faulthandler.dump_traceback_later(int(os.environ["VERIF_FAULT_TIMEOUT"]), exit=True)
     try:
         if hasattr(prop, "setup_process"):
             prop.setup_process()
